@@ -180,9 +180,7 @@ def redeliver(prog: dict, victim_step: int, redeliver_after: int, restart: bool 
                 if restart:
                     run.restart_clean()
                 if reset_bloom:
-                    from stabilize.queue.dedup import get_deduplicator
-
-                    get_deduplicator().reset()
+                    run.bloom_reset()
                 run.expire(victim)
                 run.deliver(victim)
                 victim = None
